@@ -234,10 +234,12 @@ def load_known():
 def finish(chk: Check, level_text=""):
     known = load_known()
     known_keys = {(k["property"], k["rule"], k["key"]): k for k in known.get("known", [])}
-    os.makedirs(os.path.join(VERIF, "reports"), exist_ok=True)
-    os.makedirs(os.path.join(VERIF, "evidence"), exist_ok=True)
+    ev_dir = os.environ.get("VERIF_EVIDENCE_DIR") or os.path.join(VERIF, "evidence")
+    rep_dir = os.path.join(ev_dir, "reports") if os.environ.get("VERIF_EVIDENCE_DIR") else os.path.join(VERIF, "reports")
+    os.makedirs(rep_dir, exist_ok=True)
+    os.makedirs(ev_dir, exist_ok=True)
     # clear old reports of this property
-    for p in glob.glob(os.path.join(VERIF, "reports", f"{chk.pid}-*.json")):
+    for p in glob.glob(os.path.join(rep_dir, f"{chk.pid}-*.json")):
         os.remove(p)
     real = []
     kf = []
@@ -251,7 +253,7 @@ def finish(chk: Check, level_text=""):
     for v, k in kf:
         lines.append(f"KNOWN-FINDING: property={chk.pid} {v.rule} {v.key} — {k.get('what', v.message)}")
     for n, v in enumerate(real, 1):
-        path = os.path.join(VERIF, "reports", f"{chk.pid}-{n}.json")
+        path = os.path.join(rep_dir, f"{chk.pid}-{n}.json")
         with open(path, "w") as fh:
             json.dump({"property": chk.pid, **v.to_json()}, fh, indent=1)
         print(f"  [{v.rule}] {v.where}: {v.message}\n      instance: {v.key}")
@@ -282,7 +284,7 @@ def finish(chk: Check, level_text=""):
         "wall_s": round(wall, 2),
         "violations": len(real),
     }
-    with open(os.path.join(VERIF, "evidence", f"{chk.pid}.json"), "w") as fh:
+    with open(os.path.join(ev_dir, f"{chk.pid}.json"), "w") as fh:
         json.dump(ev, fh, indent=1, default=str)
     for l in lines:
         print(l)
